@@ -76,7 +76,7 @@ TRUSTED_TABLES = [
     'C union type punning; C++ std::bit_cast; C# BitConverter.{SingleToInt32Bits,Int32BitsToSingle,DoubleToInt64Bits,Int64BitsToDouble}; '
     'D reinterpretCast!T; Go math.{Float32bits,Float32frombits,Float64bits,Float64frombits}; MoonBit reinterpret_as_*/to_*/land/'
     'Int::unsafe_to_char and the mbt_ffi_extend8/16 helpers (checked to be i32.extend8_s/i32.extend16_s in crates/moonbit/src/ffi.rs)',
-    'floating-point values are carried as their IEEE bit patterns; only bit-preserving float operations are modelled',
+    'floating-point values are carried as their IEEE bit patterns; only bit-preserving float operations are modelled, plus Rust\'s `float as integer` (round toward zero, saturating, NaN -> 0) so that a numeric cast emitted where a reinterpretation is due is refuted rather than left undecided',
 ]
 
 # ---------------------------------------------------------------------------------------------- SMT helpers
@@ -99,6 +99,9 @@ def ext(term, frm, to, signed):
     return '((_ %s %d) %s)' % ('sign_extend' if signed else 'zero_extend', to - frm, term)
 
 
+RUST_FLOAT_AS_INT = [False]   # set while a Rust expression is evaluated
+
+
 def conv(v, to):
     """the language-independent meaning of converting a value to another scalar type (see TRUSTED_TABLES)"""
     f = v.ty
@@ -115,6 +118,22 @@ def conv(v, to):
         return Val(ext(v.smt, f.width, to.width, f.signed and f.kind == 'int'), to)
     if f.kind == 'float' and to.kind == 'float' and f.width == to.width:
         return Val(v.smt, to)
+    if f.kind == 'float' and to.kind == 'int' and RUST_FLOAT_AS_INT[0]:
+        # Rust `as`: round toward zero, saturate at the target's range, NaN -> 0 (a VALUE conversion, not a reinterpretation)
+        eb, sb = (8, 24) if f.width == 32 else (11, 53)
+        fp = '((_ to_fp %d %d) %s)' % (eb, sb, v.smt)
+        w = to.width
+        if to.signed:
+            lo, hi = -(1 << (w - 1)), (1 << (w - 1)) - 1
+            cvt = '((_ fp.to_sbv %d) RTZ %s)' % (w, fp)
+        else:
+            lo, hi = 0, (1 << w) - 1
+            cvt = '((_ fp.to_ubv %d) RTZ %s)' % (w, fp)
+        lo_fp = '((_ to_fp %d %d) RTZ %s)' % (eb, sb, ('(- %d.0)' % -lo) if lo < 0 else '%d.0' % lo)
+        hi_fp = '((_ to_fp %d %d) RTZ %d.0)' % (eb, sb, hi)
+        t = '(ite (fp.isNaN %s) %s (ite (fp.leq %s %s) %s (ite (fp.geq %s %s) %s %s)))' % (
+            fp, bv(0, w), fp, lo_fp, bv(lo, w), fp, hi_fp, bv(hi, w), cvt)
+        return Val(t, to)
     raise Unsupported('value conversion %s -> %s is not bit-level (not modelled)' % (f, to))
 
 
@@ -642,7 +661,11 @@ def translate(lang, p, text, env, extra=None):
     """returns (Val, fresh_vars) for the emitted expression `text` with free variables bound by env"""
     ev = Eval(lang, p, env, extra)
     ast = Parser(lang, text, ev.types).parse()
-    v = ev.ev(ast)
+    RUST_FLOAT_AS_INT[0] = (lang == 'rust')
+    try:
+        v = ev.ev(ast)
+    finally:
+        RUST_FLOAT_AS_INT[0] = False
     if isinstance(v, tuple):
         raise Unsupported('expression evaluates to an aggregate')
     return v, ev.fresh
@@ -651,7 +674,7 @@ def translate(lang, p, text, env, extra=None):
 # ---------------------------------------------------------------------------------------------- solver
 def z3_check(decls, negated_goal, timeout_s=60):
     """decls: [(name,width)], negated_goal: SMT bool term.  returns ('unsat',None) | ('sat',{name:int}) | ('unknown',msg)"""
-    lines = ['(set-logic QF_BV)']
+    lines = ['(set-logic ALL)' if 'fp.' in negated_goal or 'to_fp' in negated_goal else '(set-logic QF_BV)']
     for n, w in decls:
         lines.append('(declare-const %s (_ BitVec %d))' % (n, w))
     lines.append('(assert %s)' % negated_goal)
